@@ -11,4 +11,13 @@ def obligations(tier):
     obs = []
     for s in so.REQ_STATES:
         obs.append(so.req_step(s, n=4, tier='quick'))
+    for side, unit, idle in (('req', 'htp_request.c', 'htp_connp_REQ_IDLE'), ('res', 'htp_response.c', 'htp_connp_RES_IDLE')):
+        obs.append(Ob('drv.%s.N4' % side, 'stream/drv_%s.c' % side, units=[unit, 'htp_connection.c'], models=['@libc_model.c'], remove=['htp_log', idle, 'htp_hook_run_all'],
+                      defines={'N': 4}, unwind=6, restrict_by=[(r'(in|out)_state', 'stub_state,' + idle)], tier='quick', timeout=300, mem_gb=6,
+                      statement='real htp_connp_%s_data over a contract-stub state: documented return codes, DATA => consumed == len, DATA_OTHER => consumed < len, byte counter += len, ERROR/STOP sticky with zero state-function and hook calls, TUNNEL short-circuit, zero-length refusal without side effects, gap handling' % side,
+                      bounds='chunk <= 4 bytes, <= 3 state-function calls per driver call, all 8 stream states on entry, all stub return codes'))
+    obs.append(Ob('close.sticky', 'stream/close.c', units=['htp_connection_parser.c'], remove=['htp_log'], unwind=2, tier='quick', timeout=120, mem_gb=3,
+                  statement='htp_connp_close / htp_connp_req_close keep ERROR and STOP; all other states become CLOSED before the finalisation calls', bounds='all 8x8 status pairs'))
+    for s in so.RES_STATES:
+        obs.append(so.res_step(s, n=(3 if s == 3 else 4), tier='quick', kfs=(['C09-stop-overwritten'] if s == 4 else [])))
     return obs
